@@ -137,10 +137,23 @@ func postCheck(r *sim.Result) (string, string) {
 			}
 			fmt.Fprintf(&sb, "[c%d %s %s=%q ok=%v %d..%d sends=%d] ", o.Client, kind, o.Key, o.Value, o.OK, o.Call, o.Return, o.Sends)
 		}
-		for _, o := range hist {
+		// The recorded finding (a re-sent Put is appended to the log again; its second copy
+		// takes effect later, over Puts acknowledged in between) explains a history exactly
+		// when the history becomes linearizable once every re-sent Put may take effect a second
+		// time at any later instant: a ghost Put per re-send that never returns (porcupine may
+		// place it after everything else, so a ghost is optional). Anything else is reported.
+		ghosts := append([]porcupine.Operation{}, ops...)
+		resent := 0
+		for i, o := range hist {
 			if o.Put && o.Sends > 1 {
-				return "not_linearizable_after_put_retry", fmt.Sprintf("the clients' history is not linearizable and client %d had re-sent its Put %s=%s after a time-out (the request is appended to the log again): ", o.Client, o.Key, o.Value) + sb.String() + "| " + lastDesc
+				resent++
+				for g := 1; g < o.Sends && g <= 2; g++ {
+					ghosts = append(ghosts, porcupine.Operation{ClientId: 1000 + 10*i + g, Input: kvInput{true, o.Key, o.Value}, Call: o.Call, Output: kvOutput{}, Return: forever + int64(1000+10*i+g)})
+				}
 			}
+		}
+		if resent > 0 && porcupine.CheckOperationsTimeout(model, ghosts, harness.PorcupineTimeout()) != porcupine.Illegal {
+			return "not_linearizable_after_put_retry", fmt.Sprintf("the clients' history is not linearizable, and it is once the %d Put(s) that were re-sent after a time-out may take effect a second time (the request is appended to the log again): ", resent) + sb.String() + "| " + lastDesc
 		}
 		return "not_linearizable", "the clients' history is not linearizable w.r.t. a key-value map: " + sb.String() + "| " + lastDesc
 	case porcupine.Unknown:
